@@ -695,6 +695,10 @@ ASMJIT_FAVOR_SPEED Error Assembler::_emit(InstId inst_id, const Operand_& o0, co
     // -----------------
 
     case InstDB::kEncodingX86Op:
+      // All operands of instructions that use this encoding are implicit, which means that they can only be registers
+      // or memory operands - immediates and labels are never valid (bit 2 of each operand type in `isign3`).
+      if (ASMJIT_UNLIKELY((isign3 & 0x124u) != 0u))
+        goto InvalidInstruction;
       goto EmitX86Op;
 
     case InstDB::kEncodingX86Op_Mod11RM:
